@@ -25,6 +25,7 @@ merely shared between two branches may be rendered either in full or as such a r
 """
 from __future__ import annotations
 
+import os as _os
 import itertools
 import json
 import os
@@ -38,6 +39,7 @@ from bounded.bC13 import (ALPHA, AUX, CaseTimeout, KINDS, RULE_CASES, RULE_EXTRA
                           model_facts, outcome, show, strings, token_words, try_compile)
 from bounded.common import JOBS, bitem, chunked, pmap
 
+_REPO = _os.environ.get('VERIF_REPO', '/repo')  # the tree under check (a scratch copy when evaluations run in parallel)
 PROP = 'C14'
 
 # --------------------------------------------------------------------------- part A: cases
@@ -95,7 +97,7 @@ def model_cases(tier, seed):
             if tier != 'thorough' and i not in (0, (sum(map(ord, kname)) % (len(ctxs) - 1)) + 1):  # deterministic choice
                 continue
             cases.append(dict(group='structure', kind=f'{kname}@{i}', text=f"{AUX}start = {c.format(x=kfrag)} $ ;\n", s=None))
-    for label, path in (('calc', '/repo/grammar/calc.ebnf'), ('tatsu', '/repo/tatsu/_tatsu.ebnf'), ('antlr', '/repo/tatsu/g2e/antlr.tatsu')):
+    for label, path in (('calc', _REPO + '/grammar/calc.ebnf'), ('tatsu', _REPO + '/tatsu/_tatsu.ebnf'), ('antlr', _REPO + '/tatsu/g2e/antlr.tatsu')):
         cases.append(dict(group='files', kind=label, text=open(path, encoding='utf-8').read(), s=None, path=path))
     return cases
 
